@@ -54,3 +54,23 @@ Definition nobs_res (res : list assign * list (word * exp_mode) * list redir) : 
 
 (* the state in which simple_command.rs starts *)
 Definition empty_b : builder := mkBuilder [] [] [].
+
+(* ---- the lists covered: pipelines, and-or lists and sequences of simple
+   commands without `$(...)` whose printed items do not end with a backslash --------- *)
+
+Definition clean_command (c : command) : Prop :=
+  match c with
+  | CSimple a w rds => nocs_res (a, w, rds) /\ nobs_res (a, w, rds)
+  | _ => False
+  end.
+
+Definition clean_pipeline (p : pipeline) : Prop :=
+  match p with Pipeline cs _ => Forall clean_command cs end.
+
+Definition clean_and_or (ao : and_or_list) : Prop :=
+  match ao with
+  | AndOrList p rest => clean_pipeline p /\ Forall (fun x => clean_pipeline (snd x)) rest
+  end.
+
+Definition clean_list (l : slist) : Prop :=
+  Forall (fun i => match i with Item ao _ => clean_and_or ao end) l.
